@@ -2,6 +2,8 @@
 # usage: mut.py <prop[,prop]> <file-rel-to-repo> <old> <new>   -- apply a textual mutant to /repo, run the checks, revert
 import sys, subprocess
 props, f, old, new = sys.argv[1].split(','), sys.argv[2], sys.argv[3], sys.argv[4]
+if subprocess.run(['git','-C','/repo','status','--porcelain'],capture_output=True,text=True).stdout.strip():
+    print("REFUSED: /repo has uncommitted changes (commit them first)"); sys.exit(4)
 p = '/repo/' + f
 s = open(p).read()
 if s.count(old) != 1:
